@@ -1411,12 +1411,13 @@ def run(ctx):
             # starved by the strata below when the budget is short)
             ctx.stratum('overlap-reinstall', exhaustive=False)
             for i in range(REINSTALLS[ctx.tier]):
-                if ctx.expired():
+                if i >= 2 and ctx.expired():        # guaranteed minima per shard: these strata have floors in MIN
                     break
                 r = ctx.sub_rnd('OS', ctx.tier, ctx.shard, i)
                 check_reinstall(ctx, gen_reinstall(r, REINSTALL_HOWS[(i + ctx.shard) % len(REINSTALL_HOWS)], 'S.%s.%d.%d' % (ctx.tier, ctx.shard, i)))
+            ctx.reserve(0.93)                        # the aimed cases below keep the rest
             for i in range(OVERLAPS[ctx.tier]):
-                if ctx.expired():
+                if i >= 2 and ctx.expired():
                     break
                 r = ctx.sub_rnd('O', ctx.tier, ctx.shard, i)
                 case = gen_ruleset(r)
@@ -1425,8 +1426,9 @@ def run(ctx):
                                         rseed='%s.%d.%d' % (ctx.tier, ctx.shard, i), grid=OVERLAP_GRID[ctx.tier]))
             # the same, aimed at state kept per reference name: one name referenced twice or more under one and/or, role
             # sets that make it decide differently for the two requests, both requests in flight at once
+            ctx.release()
             for i in range(OVERLAPS_REPEATED[ctx.tier]):
-                if ctx.expired():
+                if i >= 6 and ctx.expired():
                     break
                 r = ctx.sub_rnd('OR', ctx.tier, ctx.shard, i)
                 check_overlap(ctx, dict(gen_repeated(r), overlap=True, rseed='R.%s.%d.%d' % (ctx.tier, ctx.shard, i), limit=24, grid=[4, 5]))
